@@ -95,7 +95,7 @@ def work(inp):
     try:
         for r, pr, log in EX.runs(once, max_paths=200):
             outs.add(r)
-    except TooManyPaths:
+    except (TooManyPaths, rng.ReplayDiverged):
         rng.seed_real(inp.get("seed", 0))
         outs = {once()}
     res = []
